@@ -4,6 +4,7 @@ run (AdaptaVerif.Gen.Makepath) are the hand model AdaptaVerif.Model.Bends that t
 of Props/C05.lean are about. A failed COLA_ASSERT in the C++ (`f_pre = false`) is the model's `none`.
 -/
 import AdaptaVerif.Lemmas.BendsBridge
+import AdaptaVerif.Lemmas.EstimateBridge
 namespace AdaptaVerif.Props.C05Tie
 open AdaptaVerif.Model.Geometry (Pt)
 open AdaptaVerif.Lemmas.BendsBridge
@@ -22,5 +23,29 @@ theorem gen_direction_kernels_are_model :
 theorem gen_bends_is_model (c : Pt) (cd : Nat) (d : Pt) (dd : Nat) :
     M.bends c cd d dd = if G.bends_pre c cd d dd then some (G.bends c cd d dd).toNat else none :=
   bends_eq c cd d dd
+
+/-- `manhattanDist` (geometry.cpp) as generated is the model's -/
+theorem gen_manhattanDist_is_model (a b : Pt) :
+    AdaptaVerif.Gen.Makepath.manhattanDist a b = AdaptaVerif.Model.Bends.manhattanDist a b := rfl
+
+/-- the orthogonal branch of `estimatedCostSpecific` — the A* heuristic whose admissibility
+    (`estimate_le*` in Props/C05) makes the search optimal — as generated from makepath.cpp is the
+    model's: same value whenever every reached assertion holds (`segmentPenalty > 0`, those inside
+    `bends`), the model's `none` exactly when one fails.  `k.connType ≠ 1`: not ConnType_PolyLine
+    (that branch returns the Euclidean distance, left uninterpreted as `euclid`); `last = none` is
+    the C++ `last == nullptr`. -/
+theorem gen_estimatedCostSpecific_is_model (k : AdaptaVerif.Model.EstimateKeys.ConnK) (hk : k.connType ≠ 1)
+    (last : Option Pt) (curr tar : Pt) (dirs : Nat) (euclid : Pt → Pt → Rat) :
+    AdaptaVerif.Model.Bends.estimatedCostSpecific last curr tar dirs k.segmentPenalty =
+      if AdaptaVerif.Gen.Makepath.estimatedCostSpecific_pre k last curr tar dirs euclid
+      then some (AdaptaVerif.Gen.Makepath.estimatedCostSpecific k last curr tar dirs euclid) else none :=
+  AdaptaVerif.Lemmas.EstimateBridge.estimatedCostSpecific_eq k hk last curr tar dirs euclid
+
+/-- the polyline branch is the (uninterpreted) Euclidean distance and contains no assertion -/
+theorem gen_estimatedCostSpecific_polyline (k : AdaptaVerif.Model.EstimateKeys.ConnK) (hk : k.connType = 1)
+    (last : Option Pt) (curr tar : Pt) (dirs : Nat) (euclid : Pt → Pt → Rat) :
+    AdaptaVerif.Gen.Makepath.estimatedCostSpecific k last curr tar dirs euclid = euclid curr tar ∧
+    AdaptaVerif.Gen.Makepath.estimatedCostSpecific_pre k last curr tar dirs euclid = true := by
+  simp [AdaptaVerif.Gen.Makepath.estimatedCostSpecific, AdaptaVerif.Gen.Makepath.estimatedCostSpecific_pre, hk]
 
 end AdaptaVerif.Props.C05Tie
